@@ -478,8 +478,8 @@ def c08(tier):
 # C04  the syntax tree is the derivation the grammar mandates
 
 def _grammar_cfgs(tier):
-    return (["MC_SplGrammar_n15", "MC_SplGrammar_expr", "MC_SplGrammar_expr2", "MC_SplGrammar_stmt"] if tier == "quick"
-            else ["MC_SplGrammar_n18", "MC_SplGrammar_expr", "MC_SplGrammar_expr2", "MC_SplGrammar_stmt"])
+    return (["MC_SplGrammar_n15", "MC_SplGrammar_expr", "MC_SplGrammar_expr2", "MC_SplGrammar_stmt", "MC_SplGrammar_struct20"] if tier == "quick"
+            else ["MC_SplGrammar_n18", "MC_SplGrammar_expr", "MC_SplGrammar_expr2", "MC_SplGrammar_stmt", "MC_SplGrammar_struct22"])
 
 
 def c04(tier):
@@ -561,8 +561,8 @@ def _format_check(prop, tier, rule, assumptions, layouts, gaps, alloptions):
     c.rule = rule
     vlib.build_harness()
     exe = vlib.build_server(False)
-    cfgs = [("MC_SplGrammar_n15", 2), ("MC_SplGrammar_stmt16", 7), ("MC_SplGrammar_expr", 7)] if tier == "quick" else \
-           [("MC_SplGrammar_n17", 1), ("MC_SplGrammar_stmt", 1), ("MC_SplGrammar_expr", 1), ("MC_SplGrammar_expr2", 3)]
+    cfgs = [("MC_SplGrammar_n15", 2), ("MC_SplGrammar_stmt16", 7), ("MC_SplGrammar_struct20", 10), ("MC_SplGrammar_expr", 7)] if tier == "quick" else \
+           [("MC_SplGrammar_n17", 1), ("MC_SplGrammar_stmt", 1), ("MC_SplGrammar_struct22", 8), ("MC_SplGrammar_expr", 1), ("MC_SplGrammar_expr2", 3)]
     for cfg, stride in cfgs:
         res = vlib.tlc("MC_SplGrammar", cfg + ".cfg", prop.lower() + "_" + cfg, timeout=6000, heap="16g")
         vlib.require_coverage(res, ["Expand", "Shift"])
